@@ -36,6 +36,10 @@ def check(ctx, report):
     url_projection(ctx, report)
     from .c18 import name_value_composers
     name_value_composers(ctx, report, rule='C05.R5')
+    from .c08 import txt_chunks
+    txt_chunks(ctx, report, rule='C05.R7')
+    from .c18 import spf_network_composer
+    spf_network_composer(ctx, report, rule='C05.R8')
     import json, os
     here = os.path.dirname(os.path.dirname(os.path.abspath(__file__)))
     with open(os.path.join(here, 'reviewed.json')) as fh:
@@ -319,6 +323,28 @@ def url_projection(ctx, report):
         report.error('C05.R6: FieldValueComponentUrl._get_value_as_simple_type vanished')
         return
     report.touch(f)
+    # every part of a urllib3 Url except the scheme may be None: slicing or concatenating it needs a guard
+    parents = {}
+    for n in ast.walk(f.node):
+        for ch in ast.iter_child_nodes(n):
+            parents[id(ch)] = n
+    for n in ast.walk(f.node):
+        if isinstance(n, ast.Attribute) and ast.unparse(n.value) == 'self.value' and n.attr in ('path', 'query', 'fragment', 'host', 'auth', 'port'):
+            p = parents.get(id(n))
+            used_raw = isinstance(p, ast.Subscript) and p.value is n or (isinstance(p, ast.BinOp) and isinstance(p.op, ast.Add))
+            if not used_raw:
+                continue
+            report.count('C05.R6')
+            guarded = False
+            q = n
+            while id(q) in parents:
+                q = parents[id(q)]
+                if isinstance(q, ast.If) and ('self.value.%s' % n.attr) in ast.unparse(q.test):
+                    guarded = True
+            if not guarded:
+                report.add('C05.R6', '%s@optional-part[%s]' % (f.construct, n.attr),
+                           'self.value.%s may be None (urllib3 leaves absent URL parts unset) but is sliced / concatenated without a test: composing and '
+                           'rendering such a URL raises TypeError' % n.attr)
     for br in [n for n in ast.walk(f.node) if isinstance(n, ast.If)]:
         for name, body in (('then', br.body), ('else', br.orelse)):
             attrs = {n.attr for st in body for n in ast.walk(st) if isinstance(n, ast.Attribute) and ast.unparse(n.value) == 'self.value'}
